@@ -18,7 +18,8 @@ pub fn cases(tier: Tier) -> u64 {
     }
 }
 
-const BAD_BYTES: &[&str] = &["\u{1}", "\u{7f}", "§", "¤"];
+// bytes / characters that cannot start any token (incl. characters that are white space for Unicode but not for IEEE 1800 5.3)
+const BAD_BYTES: &[&str] = &["\u{1}", "\u{7f}", "§", "¤", "\u{b}", "\u{a0}", "\u{85}", "\u{2028}", "\u{feff}"];
 const CLOSERS: &[&str] = &[
     "end", "endmodule", "endfunction", "endtask", "endcase", "endclass", "endpackage", "endinterface", "endprogram", "endgenerate", "join", "join_any",
     "join_none", "endprimitive", "endtable", "endspecify", "endconfig", "endgroup", "endproperty", "endsequence", "endchecker", "endclocking",
@@ -45,15 +46,44 @@ fn accepted_program(env: &Env, rng: &mut Rng) -> Option<(String, Vec<(usize, usi
         let split = if p.desc_starts.len() > 1 { Some(p.spans[p.desc_starts[1]].0) } else { None };
         Some((p.text, spans, split))
     } else {
-        let p = env.corpus.pick_program(rng).to_string();
+        let mut p = env.corpus.pick_program(rng).to_string();
         if p.contains('`') {
             return None;
+        }
+        // half of them with kept (neutral) directives in the trivia: faults right after a directive line
+        let with_directives = rng.chance(1, 2);
+        if with_directives {
+            let lay = crate::mutate::Layout { directives: true, defines: false, non_ascii: false, form_feed: false, comments: true };
+            p = crate::mutate::relayout(&p, rng, &lay)?;
         }
         let (toks, fault) = lexer::lex_mode(&p, true);
         if fault.is_some() {
             return None;
         }
-        let spans = toks.iter().filter(|t| !lexer::is_trivia(t.k)).map(|t| (t.s, t.e, t.k)).collect();
+        // tokens on a directive line (from the backtick to the end of the line) are not fault positions
+        let b = p.as_bytes();
+        let mut spans = Vec::new();
+        let mut in_dir = false;
+        for t in &toks {
+            if t.k == K::Ws {
+                if in_dir && p[t.s..t.e].contains('\n') {
+                    in_dir = false;
+                }
+                continue;
+            }
+            if t.k == K::Tick {
+                in_dir = true;
+                continue;
+            }
+            if in_dir || lexer::is_trivia(t.k) {
+                if t.k == K::LineComment {
+                    in_dir = false;
+                }
+                continue;
+            }
+            spans.push((t.s, t.e, t.k));
+        }
+        let _ = b;
         Some((p, spans, None))
     }
 }
